@@ -17,25 +17,39 @@ From SG Require Import Base.Prelude.
    (auth.Save writes the e-mail index document after the principal: known finding, see C11_Refuted.v).
    Inval: a follow-up write that is part of the request's visible effect (MarkPrincipalsChanged: invalidation of
    the principals whose access the committed revision changed) and whose failure is logged and swallowed
-   (finding of the deepening round, see C11_Refuted.v) *)
-Inductive opclass := Read | Aux | Opt | Commit | PostErr | Inval.
+   (finding of the deepening round, see C11_Refuted.v).
+   Cleanup: the DELETE of an auxiliary document that the stored primary state references until the commit
+   replaces it (deleteRemovedRevisionBodies: the out-of-line body document _sync:rb:<digest> of a non-winning
+   revision that the commit promoted, backed up or pruned; the obsolete-attachment sweep).  Best effort: its own
+   failure is logged and swallowed.  It may only run AFTER the commit ([cleanup_after_commit], checked on every
+   observed trace); the model executes it wherever the trace has it, so that a trace violating that rule really
+   loses the auxiliary document ([cleaned]) although the request fails.
+   ReadBody: the read of an out-of-line revision body (_sync:rb:<digest>) whose content the commit copies into the
+   document (a non-winning revision is PROMOTED to current revision), in the attempt that commits.  Its failure is
+   SWALLOWED: the write goes on, commits the promoted revision WITHOUT its body and then deletes the body document
+   (finding of the round that brought the auxiliary documents in, see C11_Refuted.v). *)
+Inductive opclass := Read | Aux | Opt | Commit | PostErr | Inval | Cleanup | ReadBody.
 Inductive result := ROk | RErr.
 
 Record sys := { committed : bool;        (* the primary state is the request's new state *)
                 aux : list nat;           (* indexes of auxiliary operations performed *)
                 follow_ups_failed : nat;
-                lost : list nat }.        (* indexes of required follow-ups (Inval) whose failure was swallowed *)
+                lost : list nat;          (* indexes of required follow-ups (Inval) and required reads (ReadBody) whose failure was swallowed *)
+                cleaned : list nat }.     (* indexes of the Cleanup operations performed: auxiliary documents, referenced
+                                             by the state before the request, that no longer exist *)
 
-Definition sys0 : sys := {| committed := false; aux := []; follow_ups_failed := 0; lost := [] |}.
+Definition sys0 : sys := {| committed := false; aux := []; follow_ups_failed := 0; lost := []; cleaned := [] |}.
 
 Definition set_committed (s : sys) : sys :=
-  {| committed := true; aux := aux s; follow_ups_failed := follow_ups_failed s; lost := lost s |}.
+  {| committed := true; aux := aux s; follow_ups_failed := follow_ups_failed s; lost := lost s; cleaned := cleaned s |}.
 Definition add_aux (i : nat) (s : sys) : sys :=
-  {| committed := committed s; aux := i :: aux s; follow_ups_failed := follow_ups_failed s; lost := lost s |}.
+  {| committed := committed s; aux := i :: aux s; follow_ups_failed := follow_ups_failed s; lost := lost s; cleaned := cleaned s |}.
 Definition follow_up_failed (s : sys) : sys :=
-  {| committed := committed s; aux := aux s; follow_ups_failed := S (follow_ups_failed s); lost := lost s |}.
+  {| committed := committed s; aux := aux s; follow_ups_failed := S (follow_ups_failed s); lost := lost s; cleaned := cleaned s |}.
 Definition add_lost (i : nat) (s : sys) : sys :=
-  {| committed := committed s; aux := aux s; follow_ups_failed := S (follow_ups_failed s); lost := i :: lost s |}.
+  {| committed := committed s; aux := aux s; follow_ups_failed := S (follow_ups_failed s); lost := i :: lost s; cleaned := cleaned s |}.
+Definition add_cleaned (i : nat) (s : sys) : sys :=
+  {| committed := committed s; aux := aux s; follow_ups_failed := follow_ups_failed s; lost := lost s; cleaned := i :: cleaned s |}.
 
 (* executing the trace from position i with the faults at the positions in k ([]: no fault).
    Before the commit an error aborts the request; after it errors are logged and the request still
@@ -56,12 +70,18 @@ Fixpoint exec (tr : list opclass) (i : nat) (k : list nat) (s : sys) : sys * res
           end
         else exec rest (S i) k match op with
                                | Aux | PostErr => add_aux i s
+                               | Cleanup => add_cleaned i s
                                | _ => s
                                end
-      else if faulty then match op with Opt => exec rest (S i) k s | _ => (s, RErr) end
+      else if faulty then match op with
+                          | Opt | Cleanup => exec rest (S i) k s
+                          | ReadBody => exec rest (S i) k (add_lost i s)
+                          | _ => (s, RErr)
+                          end
       else match op with
-           | Read | Opt | Inval => exec rest (S i) k s
+           | Read | Opt | Inval | ReadBody => exec rest (S i) k s
            | Aux | PostErr => exec rest (S i) k (add_aux i s)
+           | Cleanup => exec rest (S i) k (add_cleaned i s)
            | Commit => exec rest (S i) k (set_committed s)
            end
   end.
@@ -78,6 +98,18 @@ Definition commit_index (tr : list opclass) : option nat := commit_index_from tr
 
 (* what the model predicts for a fault at operation k of the trace *)
 Definition predicted (tr : list opclass) (k : nat) : result := snd (run_request tr [k]).
+
+(* the rule for clean-up operations: none before the commit (a request without commit has none at all) *)
+Fixpoint cleanup_after_commitb (tr : list opclass) : bool :=
+  match tr with
+  | [] => true
+  | Commit :: _ => true
+  | Cleanup :: _ => false
+  | _ :: rest => cleanup_after_commitb rest
+  end.
+
+(* an auxiliary document that the state before the request references has been deleted *)
+Definition aux_deleted (s : sys) : bool := match cleaned s with [] => false | _ => true end.
 
 (* the whole effect of the request is visible: committed, and no required follow-up was lost *)
 Definition effect_visible (s : sys) : bool := committed s && match lost s with [] => true | _ => false end.
